@@ -251,6 +251,16 @@ fn clamp_gram_determinant(mut det: f64) -> Result<f64, CircumcenterError> {
 /// - non-finite => NaN
 #[inline]
 fn gram_determinant_ldlt<const D: usize>(gram_matrix: Matrix<D>) -> f64 {
+    // Overflowed dot products (huge but finite coordinates) make the Gram matrix non-finite.
+    // Report that as NaN up front: la-stack's LDLT debug-asserts symmetry, and `inf - inf`
+    // is NaN, so debug builds would panic instead of returning `NonFinite`.
+    for i in 0..D {
+        for j in 0..D {
+            if !crate::geometry::matrix::matrix_get(&gram_matrix, i, j).is_finite() {
+                return f64::NAN;
+            }
+        }
+    }
     match gram_matrix.ldlt(DEFAULT_SINGULAR_TOL) {
         Ok(ldlt) => ldlt.det(),
         Err(LaError::Singular { .. }) => 0.0,
